@@ -105,7 +105,13 @@ func ntC01(c C01Case) (bool, []string) {
 	return c.InFlight >= 2 || c.Clients >= 2, l
 }
 
+// c01Answer: what a call with this nonce and size is answered with. Answers of 100 and 5000 bytes are padded with words the
+// protocol itself uses (an answer is told from an error, a request or a notification by its members, not by its text).
 func c01Answer(nonce string, size int) string {
+	if size == 100 || size == 5000 {
+		const words = `"error":{"code":-32603,"message":"x"} "method":"ping" "id":1 "result":null `
+		return "f(" + nonce + ")|" + strings.Repeat(words, size/len(words)+1)[:size]
+	}
 	return "f(" + nonce + ")|" + strings.Repeat("p", size)
 }
 
@@ -136,7 +142,12 @@ func c01Register(w *World, r Registrar) {
 		if unenc, _ := req.Params.Arguments["unenc"].(bool); unenc {
 			return &mcp.CallToolResult{Content: []mcp.Content{mcp.NewTextContent(c01Answer(nonce, int(size)))}, StructuredContent: map[string]interface{}{"v": math.NaN()}}, nil
 		}
-		return mcp.NewTextResult(c01Answer(nonce, int(size))), nil
+		res := mcp.NewTextResult(c01Answer(nonce, int(size)))
+		if int(size) == 10 {
+			// structured output whose members are named like the envelope's
+			res.StructuredContent = map[string]interface{}{"error": nonce, "result": nil, "method": "x", "id": 1, "jsonrpc": "1.0"}
+		}
+		return res, nil
 	})
 	r.RegisterPrompt(&mcp.Prompt{Name: "echo", Arguments: []mcp.PromptArgument{{Name: "nonce"}, {Name: "size"}}}, func(ctx context.Context, req *mcp.GetPromptRequest) (*mcp.GetPromptResult, error) {
 		nonce := req.Params.Arguments["nonce"]
